@@ -291,7 +291,9 @@ func (s *state) exec(o hop) {
 	case "nextlabel":
 		p.Post(fmt.Sprintf("/api/node/%s/%s/nextlabel/%d", u, s.n("lm"), o.N), nil)
 	default:
-		fatal("unknown op %q", o.Op)
+		if !s.execGeom(o, u) {
+			fatal("unknown op %q", o.Op)
+		}
 	}
 	s.refresh()
 }
@@ -418,7 +420,7 @@ func (s *state) snapshot() []probe {
 	// leaf versions first: state rebuilt lazily at start-up (label mappings) must not depend on which
 	// version is asked first
 	sort.Sort(sort.Reverse(sort.IntSlice(vs)))
-	for _, logical := range []string{"kv", "lm", "nj", "ann"} {
+	for _, logical := range []string{"kv", "lm", "nj", "ann", "roi", "img"} {
 		if logical == "lm" && !s.haveLM {
 			continue
 		}
@@ -426,6 +428,7 @@ func (s *state) snapshot() []probe {
 		add("data-tags", logical, s.getJ("/api/node/"+s.root+"/"+s.n(logical)+"/tags"))
 	}
 	add("repo-log", "", s.getJ("/api/repo/"+s.root+"/log"))
+	s.snapshotProps(add)
 	branches := map[string]bool{"master": true}
 	for _, n := range ri.DAG.Nodes {
 		if n.Branch != "" {
@@ -474,6 +477,7 @@ func (s *state) snapshot() []probe {
 			add("nj-key", vk+"/"+k, s.getJ("/api/node/"+u+"/"+s.n("nj")+"/key/"+k))
 		}
 		add("ann-all", vk, s.getJ("/api/node/"+u+"/"+s.n("ann")+"/all-elements"))
+		s.snapshotGeom(add, u, vk)
 		if s.haveLM {
 			add("lm-maxlabel", vk, s.get("/api/node/"+u+"/"+s.n("lm")+"/maxlabel"))
 			add("lm-nextlabel", vk, s.get("/api/node/"+u+"/"+s.n("lm")+"/nextlabel"))
@@ -557,7 +561,7 @@ func mutVersions(s *state) int {
 	return len(seen)
 }
 
-var dataNo = map[string]int{"kv": 1, "lm": 2, "nj": 3, "ann": 4}
+var dataNo = map[string]int{"kv": 1, "lm": 2, "nj": 3, "ann": 4, "roi": 5, "img": 6}
 
 func headsOf(ps []probe) map[string]string {
 	m := map[string]string{}
@@ -676,6 +680,8 @@ func execHistory(c jcase) (ex execution) {
 	mkdata("labelmap", "lm")
 	mkdata("neuronjson", "nj")
 	mkdata("annotation", "ann")
+	mkdata("roi", "roi")
+	mkdata("uint8blk", "img")
 	p.Post("/api/node/"+s.root+"/kv/key/ver", []byte("ver1"))
 
 	restarts := 0
@@ -1066,7 +1072,7 @@ func randomHistory(rng *lib.Rand, i int) jcase {
 	s := &state{p: p, vuuid: map[int]string{}, keys: map[string]bool{}, njKeys: map[string]bool{}, lmLabel: map[uint64]bool{}, blockOf: map[uint64]int{}, mapops: map[int][]string{}, mapsegs: map[int][]string{}}
 	p.PostJSON("/api/repos", map[string]string{"alias": "r1"})
 	s.refresh()
-	for _, d := range [][2]string{{"keyvalue", "kv"}, {"labelmap", "lm"}, {"neuronjson", "nj"}, {"annotation", "ann"}} {
+	for _, d := range [][2]string{{"keyvalue", "kv"}, {"labelmap", "lm"}, {"neuronjson", "nj"}, {"annotation", "ann"}, {"roi", "roi"}, {"uint8blk", "img"}} {
 		p.PostJSON("/api/repo/"+s.root+"/instance", map[string]string{"typename": d[0], "dataname": d[1]})
 	}
 	do := func(o hop) { c.Ops = append(c.Ops, o); s.exec(o) }
@@ -1183,6 +1189,10 @@ func randomHistory(rng *lib.Rand, i int) jcase {
 				}
 			}
 		case 12:
+			if !n.Locked && rng.Chance(0.6) {
+				setting(geomOp(rng, n.VersionID))
+				break
+			}
 			setting(hop{Op: pickS(rng, "note", "log"), V: n.VersionID, Val: fmt.Sprintf("text %d", k)})
 		case 13:
 			switch rng.Intn(4) {
